@@ -163,7 +163,38 @@ def _extra_threads(baseline, want):
     return n
 
 
+_port_shared = [False]
+
+
+def _udp_port_shared(port):
+    """more than one UDP socket on this port: TftpServer sets SO_REUSEADDR, so the TFTP server of ANOTHER check
+    running at the same time may have bound the same port between our probe and our bind"""
+    n = 0
+    for fn in ("/proc/net/udp6", "/proc/net/udp"):
+        try:
+            with open(fn) as f:
+                for ln in f.readlines()[1:]:
+                    parts = ln.split()
+                    if len(parts) > 1 and parts[1].rsplit(":", 1)[-1].lower() == "%04x" % port:
+                        n += 1
+        except OSError:
+            pass
+    return n > 1
+
+
 def run_history(kind, h, hold=1.5):
+    """a history on a port of its own; run again on another port if, after one of its starts, the UDP port turned
+    out to be shared with a foreign socket (requests would go astray between the two processes)"""
+    obs = None
+    for _ in range(4):
+        _port_shared[0] = False
+        obs = _run_history(kind, h, hold)
+        if not _port_shared[0]:
+            break
+    return obs
+
+
+def _run_history(kind, h, hold=1.5):
     """returns the per-operation observations [raised, port bound, live server threads, request outcome, hang]"""
     baseline = set(threading.enumerate())
     port = _free_port(kind)
@@ -176,8 +207,8 @@ def run_history(kind, h, hold=1.5):
     _shim = types.SimpleNamespace(**{k: getattr(threading, k) for k in dir(threading) if not k.startswith("__")})
     _shim.Thread = _FastJoinThread
     _mod = S if kind == "tftp" else H
-    _old_threading = _mod.threading
-    _mod.threading = _shim
+    _hist_patch = _Patch()
+    sched.patch_module_use(_mod, threading, _shim, _hist_patch.set)
     if kind == "tftp":
         handler = _TftpHandler()
         srv = S.TftpServer([handler], "::1", port, default_timeout=0.3, max_retries=0)
@@ -209,6 +240,8 @@ def run_history(kind, h, hold=1.5):
                     raised = 1
                 else:
                     expect_running = 1 if o == START else 0
+                    if o == START and kind == "tftp" and _udp_port_shared(port):
+                        _port_shared[0] = True
             elif o == STOP_OPEN_CONN:
                 # stop() while a client holds an open, idle connection (HTTP: TCP connection without a request line;
                 # TFTP has no connections: a plain stop()): stop() must return within its deadline all the same
@@ -250,10 +283,9 @@ def run_history(kind, h, hold=1.5):
             elif o == START_THREAD_FAIL:
                 # start() while the OS refuses a new thread: socket(), bind() succeed, Thread.start() raises once
                 mod = S if kind == "tftp" else H
-                real_threading = mod.threading
                 armed = [True]
 
-                class _FailingThread(threading.Thread):
+                class _FailingThread(_FastJoinThread):
                     def start(self):
                         if armed[0]:
                             armed[0] = False
@@ -271,13 +303,16 @@ def run_history(kind, h, hold=1.5):
                         done.append(1)
                     except BaseException:      # noqa
                         done.append(2)
-                mod.threading = shim
+                fail_patch = _Patch()
+                _hist_patch.undo()
+                sched.patch_module_use(mod, threading, shim, fail_patch.set)
                 try:
                     th = threading.Thread(target=call_start, daemon=True)
                     th.start()
                     th.join(5.0)
                 finally:
-                    mod.threading = real_threading
+                    fail_patch.undo()
+                    sched.patch_module_use(_mod, threading, _shim, _hist_patch.set)
                 if th.is_alive():
                     hang = 1
                     baseline.add(th)
@@ -376,7 +411,7 @@ def run_history(kind, h, hold=1.5):
             if hang:
                 break
     finally:
-        _mod.threading = _old_threading
+        _hist_patch.undo()
         if handler is not None:
             handler.release.set()
         try:
@@ -385,16 +420,13 @@ def run_history(kind, h, hold=1.5):
             t.join(2.0)
         except Exception:
             pass
-        s = getattr(srv, "_socket", None)
-        if s is not None:
+        # whatever the object still holds, found by type (no private names)
+        for v in list(vars(srv).values()):
             try:
-                s.close()
-            except Exception:
-                pass
-        hs = getattr(srv, "_server", None)
-        if hs is not None:
-            try:
-                hs.server_close()
+                if isinstance(v, real_socket.socket):
+                    v.close()
+                elif isinstance(v, socketserver.BaseServer):
+                    v.server_close()
             except Exception:
                 pass
     return obs
@@ -493,9 +525,19 @@ class _Patch:
 
 
 TFTP_FILES = [S.__file__]
-TFTP_FUNCS = ["start", "stop", "_run"]
+TFTP_FUNCS = sched.with_fallback(["start", "stop", "_run"], [(S.__file__, ["start", "stop", "_run"])])
 HTTP_FILES = [H.__file__, socketserver.__file__]
-HTTP_FUNCS = ["start", "stop", "_run", "serve_forever", "shutdown", "server_close"]
+HTTP_FUNCS = sched.with_fallback(["start", "stop", "_run", "serve_forever", "shutdown", "server_close"],
+                                 [(H.__file__, ["start", "stop", "_run"])])
+
+
+def _server_class(mod):
+    """(name, class) of the socketserver class the HTTP server module defines - found by type, not by name"""
+    hits = [(k, v) for k, v in vars(mod).items() if isinstance(v, type) and issubclass(v, socketserver.BaseServer)
+            and v.__module__ == mod.__name__]
+    if not hits:
+        raise LookupError("no socketserver.BaseServer subclass defined in %s" % mod.__name__)
+    return hits[0]
 
 
 class ConcScenario:
@@ -507,25 +549,26 @@ class ConcScenario:
         self.servers = []
         self.raised = []
         if kind == "tftp":
-            self.patch.set(S, "threading", sched.shim())
+            sched.patch_module_use(S, threading, sched.shim(), self.patch.set)
             sock_shim = types.SimpleNamespace(**{k: getattr(real_socket, k) for k in dir(real_socket)
                                                  if not k.startswith("__")})
             sock_shim.socket = lambda **k: _FakeListenSock(self.socks)
-            self.patch.set(S, "socket", sock_shim)
+            sock_shim.socket = _mk_fake = (lambda *a, **k: _FakeListenSock(self.socks))
+            sched.patch_module_use(S, real_socket, sock_shim, self.patch.set)
             self.srv = S.TftpServer([_TftpHandler()], "::1", 0)
         else:
             sh = sched.shim()
-            self.patch.set(H, "threading", sh)
-            self.patch.set(socketserver, "threading", sh)
+            sched.patch_module_use(H, threading, sh, self.patch.set)
+            sched.patch_module_use(socketserver, threading, sh, self.patch.set)
             self.patch.set(socketserver, "_ServerSelector", _FakeSelector)
             servers = self.servers
-            base = H._ThreadingHTTPServer
+            base_name, base = _server_class(H)
 
             class Recording(base):
                 def __init__(self, *a, **k):
                     super().__init__(*a, **k)
                     servers.append(self)
-            self.patch.set(H, "_ThreadingHTTPServer", Recording)
+            self.patch.set(H, base_name, Recording)
             self.srv = H.HttpServer([_HttpHandler()], "::1", 0)
         self.pre = pre
         self.bodies = [self._body(i, l) for i, l in enumerate(ops)]
@@ -694,6 +737,73 @@ def ack(n):
     return b"\x00\x04" + struct.pack("!H", n & 0xFFFF)
 
 
+def _xfer_private(cls, c, x, script, clock, log, nsock, options, handler, uncaught):
+    def mk(*a, **k):
+        if not c["sock_ok"]:
+            raise OSError(24, "Too many open files")
+        nsock[0] += 1
+        return _Sock(list(script), clock, log, c["send_err_raises"], c.get("fault"))
+    old_hook = threading.excepthook
+    threading.excepthook = lambda args: uncaught.append(args.exc_type.__name__)
+    threads = []
+    # socket, time, threading and the loggers of the module, wherever and however it imported them
+    undo, loggers = fake_net.patch_module(S, clock, mk, None, threads)
+    hdl = fake_net._Log(log)
+    saved = [(lg, lg.level, lg.propagate) for lg in loggers]
+    for lg in loggers:
+        lg.addHandler(hdl)
+        lg.setLevel(logging.INFO)
+        lg.propagate = False
+    logging.disable(logging.NOTSET)
+    ended = 1
+    try:
+        cls("f", P.TransferMode.OCTET, options, fake_net.CLI, fake_net.SRV, handler, None,
+            2, 30, 1, 65464, None if x == "overflow" else 0)
+        for th in list(threads):
+            end = time.time() + 5
+            while True:
+                try:
+                    th.join(120 if x == "overflow" else 20)
+                    break
+                except RuntimeError:          # created, not yet started
+                    if time.time() > end:
+                        break
+                    time.sleep(0.0005)
+            if th.is_alive():
+                ended = 0
+    finally:
+        undo()
+        for lg, lvl, prop in saved:
+            lg.removeHandler(hdl)
+            lg.setLevel(lvl)
+            lg.propagate = prop
+        logging.disable(logging.CRITICAL)
+        threading.excepthook = old_hook
+    return ended
+
+
+def _xfer_public(c, x, script, log, nsock, options, handler, uncaught):
+    """the same transfer through the PUBLIC path (a real TftpServer whose request socket is a fake delivering one read
+    request; harness/fake_net.py): used when the private transfer class is not there under its name with the
+    constructor this harness knows (refactorings)"""
+    def factory(script_, clock_, log_, proc_=0):
+        if not c["sock_ok"]:
+            raise OSError(24, "Too many open files")
+        nsock[0] += 1
+        return _Sock(script_, clock_, log_, c["send_err_raises"], c.get("fault"))
+    old_hook = threading.excepthook
+    threading.excepthook = lambda args: uncaught.append(args.exc_type.__name__)
+    logging.disable(logging.NOTSET)
+    try:
+        fake_net.run_transfer(script, handler, options, default_timeout=2, max_timeout=30, max_retries=1,
+                              max_block_size=65464, wrap=None if x == "overflow" else 0, shared_log=log,
+                              sock_class=factory, public=True)
+    finally:
+        logging.disable(logging.CRITICAL)
+        threading.excepthook = old_hook
+    return 0 if ("hang",) in log else 1
+
+
 def run_xfer(c):
     """one real _TftpReadRequest; returns [sockets closed, files closed, thread ended, logger.exception calls,
     thread died with an exception]"""
@@ -755,44 +865,12 @@ def run_xfer(c):
     clock = [0.0]
     log = []
     nsock = [0]
-    shim = types.SimpleNamespace(**{k: getattr(real_socket, k) for k in dir(real_socket) if not k.startswith("__")})
-
-    def mk(**k):
-        if not c["sock_ok"]:
-            raise OSError(24, "Too many open files")
-        nsock[0] += 1
-        return _Sock(list(script), clock, log, c["send_err_raises"], c.get("fault"))
-    shim.socket = mk
     uncaught = []
-    old_hook = threading.excepthook
-    threading.excepthook = lambda args: uncaught.append(args.exc_type.__name__)
-    old = (S.socket, S.time)
-    S.socket = shim
-    S.time = types.SimpleNamespace(monotonic=lambda: clock[0])
-    hdl = fake_net._Log(log)
-    S.logger.addHandler(hdl)
-    old_level, old_prop = S.logger.level, S.logger.propagate
-    S.logger.setLevel(logging.INFO)
-    S.logger.propagate = False
-    logging.disable(logging.NOTSET)
-    ended = 1
-    before = set(threading.enumerate())
-    try:
-        r = S._TftpReadRequest("f", P.TransferMode.OCTET, options, fake_net.CLI, fake_net.SRV, handler, None,
-                               2, 30, 1, 65464, None if x == "overflow" else 0)
-        th = getattr(r, "_thread", None)
-        ths = [th] if th is not None else [t_ for t_ in threading.enumerate() if t_ not in before]
-        for th in ths:
-            th.join(120 if x == "overflow" else 20)
-            if th.is_alive():
-                ended = 0
-    finally:
-        S.socket, S.time = old
-        S.logger.removeHandler(hdl)
-        S.logger.setLevel(old_level)
-        S.logger.propagate = old_prop
-        logging.disable(logging.CRITICAL)
-        threading.excepthook = old_hook
+    cls = fake_net.private_class()
+    if cls is not None:
+        ended = _xfer_private(cls, c, x, script, clock, log, nsock, options, handler, uncaught)
+    else:
+        ended = _xfer_public(c, x, script, log, nsock, options, handler, uncaught)
     for pth in tmpfiles:
         try:
             os.remove(pth)
